@@ -49,7 +49,7 @@ typedef struct
 	SF_INFO info ;
 	int ch ;			/* channels as seen after open */
 	int fd ;			/* descriptor we own (fd routes), or -1 */
-	char path [256] ;	/* temp path (path/fd routes) */
+	char path [512] ;	/* temp path (path/fd routes): scratch directory + a base name of up to 255 characters */
 	STORE *store ;		/* backing store for vio; for path/fd routes: where bytes are copied back on close */
 	SF_CHUNK_ITERATOR *it ;
 	void **chunk_data ;	/* payloads handed to sf_set_chunk must stay valid until close */
